@@ -22,14 +22,14 @@ extern "C" { extern volatile long vf_live_blocks, vf_live_bytes, vf_guarded_allo
 volatile long vf_live_blocks = 0, vf_live_bytes = 0, vf_guarded_allocs = 0, vf_unguarded_allocs = 0; int vf_guard_mode() { return -1; }
 #endif
 
-struct Cell { int n, k, l, Bgbit, t, bb; };
+struct Cell { int n, k, l, Bgbit, t, bb; int noiseless = 0; };
 static double key_mb(const Cell &c) { double ks = (double)c.k * 1024 * c.t * (1 << c.bb) * (c.n + 1) * 4, bk = (double)c.n * (c.k + 1) * c.l * (c.k + 1) * 1024 * 4; return (ks + 3 * bk) / 1048576.0; /* bk + FFT image (2x) */ }
 
 // one complete lifecycle; returns a digest of every observable output
 static uint64_t lifecycle(const Cell &c, int perm, bool file_first) {
     uint64_t h = 1469598103934665603ULL;
     uint32_t sd[3] = {(uint32_t)c.n, (uint32_t)(c.k * 100 + c.l), (uint32_t)(c.t * 100 + c.bb)}; tfhe_random_generator_setSeed(sd, 3);
-    LweParams *lp = new_LweParams(c.n, 1e-9, 0.01); TLweParams *tp = new_TLweParams(1024, c.k, 1e-10, 0.01); TGswParams *gp = new_TGswParams(c.l, c.Bgbit, tp);
+    LweParams *lp = new_LweParams(c.n, c.noiseless ? 0. : 1e-9, 0.01); TLweParams *tp = new_TLweParams(1024, c.k, c.noiseless ? 0. : 1e-10, 0.01); TGswParams *gp = new_TGswParams(c.l, c.Bgbit, tp);   // noise parameters exactly 0 are valid too
     TFheGateBootstrappingParameterSet *ps = new TFheGateBootstrappingParameterSet(c.t, c.bb, lp, gp);
     SK *sk = new_random_gate_bootstrapping_secret_keyset(ps);
     LweSample *ct = new_gate_bootstrapping_ciphertext_array(6, ps); LweSample *single = new_gate_bootstrapping_ciphertext(ps);
@@ -63,15 +63,16 @@ static void part_cells() {
     std::vector<int> ns = quick() ? std::vector<int>{1, 7, 8, 9, 1025} : std::vector<int>{1, 3, 7, 8, 9, 500, 630, 1024, 1025, 1100};
     struct LB { int l, Bgbit; } lbs[] = {{2, 10}, {3, 7}, {4, 8}, {16, 2}, {32, 1}, {1, 1}}; struct TB { int t, bb; } tbs[] = {{8, 2}, {1, 1}, {31, 1}, {15, 2}, {3, 10}};
     int idx = 0; double excluded = 0, total = 0;
-    for (int n : ns) for (int k : {1, 2}) for (auto lb : lbs) for (auto tb : tbs) {
-        Cell c{n, k, lb.l, lb.Bgbit, tb.t, tb.bb}; idx++; total++;
+    for (int n : ns) for (int k : {1, 2}) for (auto lb : lbs) for (auto tb : tbs) for (int nl : {0, 1}) {
         bool dflt = lb.l == 2 && lb.Bgbit == 10 && tb.t == 8 && tb.bb == 2;
+        if (nl && !(dflt && n <= 9)) continue;   // the noiseless twin of the small default-layout cells
+        Cell c{n, k, lb.l, lb.Bgbit, tb.t, tb.bb}; c.noiseless = nl; idx++; total++;
         if (opt("cells") == "small" && !((n == 1 || n == 7 || n == 9) && ((dflt) || (k == 1 && lb.l == 3 && tb.t == 1) || (k == 1 && lb.l == 1 && tb.t == 15)))) continue; // reduced matrix for the memcheck pass
         if (quick() && !(dflt || (k == 1 && n <= 9 && ((lb.l == 2 && lb.Bgbit == 10) || (tb.t == 8 && tb.bb == 2))) || (n == 1025 && k == 2 && lb.l == 3 && tb.t == 8))) continue;
         double mb = key_mb(c); if (mb > (quick() ? 64 : 300)) { excluded++; info(fmt("excluded/n=%d,k=%d,l=%d,t=%d,bb=%d", n, k, lb.l, tb.t, tb.bb), fmt("%.0f MB of key material", mb)); continue; }
-        std::string key = fmt("cell/n=%d/k=%d/l=%d/Bgbit=%d/t=%d/bb=%d", n, k, lb.l, lb.Bgbit, tb.t, tb.bb);
+        std::string key = fmt("cell/n=%d/k=%d/l=%d/Bgbit=%d/t=%d/bb=%d%s", n, k, lb.l, lb.Bgbit, tb.t, tb.bb, nl ? "/noise=0" : "");
         if (!take(key)) continue; if (deadline()) return; current(key);
-        int nperm = (n <= 9 && dflt && k == 1) ? 24 : 1;
+        int nperm = (n <= 9 && dflt && k == 1 && !nl) ? 24 : 1;
         Fate f = forked([&] {
             uint64_t h0 = 0; long live1 = 0, live2 = 0;
             for (int p = 0; p < nperm + 1; p++) { // the first lifecycle warms one-time caches (per-thread FFT processor, FFTW wisdom); afterwards the live count must be stationary
